@@ -80,6 +80,9 @@ Definition pal_node (g : graph) (id : nat) : bool :=
 
 (* ------------------------------------------------------------------ JSON *)
 Variable fmt : D -> jtree.     (* fmt_func: the caller's rendering of the node data, a serde_json::Value *)
+(* how serde_json writes a Value (Display / to_writer): opaque - [fun t => [VAL t]] - or token by token - [print];
+   the theorem asks only that the rendering of t is a well-formed text of t *)
+Variable render : jtree -> list token.
 
 (* Debug of DnaStringSlice: the bases below slice_debug_limit (= 256) bases, a summary otherwise.
    start = offset of the node in the PackedDnaStringSet = total length of the nodes before it
@@ -92,8 +95,8 @@ Definition se_bytes (start : nat) (sq : dna) : list N :=
 Definition node_json (id start : nat) (n : gnode) : list token :=
   [LB; STR (bs "id"); COLON; STR (dec id); COMMA;
        STR (bs "L"); COLON; NUM (N.of_nat (List.length (n_seq D n))); COMMA;
-       STR (bs "D"); COLON; VAL (fmt (n_data D n)); COMMA;
-       STR (bs "Se"); COLON; STR (se_bytes start (n_seq D n)); RB].
+       STR (bs "D"); COLON] ++ render (fmt (n_data D n)) ++
+  [COMMA; STR (bs "Se"); COLON; STR (se_bytes start (n_seq D n)); RB].
 
 (* for i in 0..len { node.to_json; if i == len - 1 { newline } else { "," } } *)
 Fixpoint nodes_loop (len : nat) (start : nat) (l : list (nat * gnode)) : list token :=
@@ -137,7 +140,7 @@ Fixpoint links_loop_old (g : graph) (len : nat) (ids : list nat) : list token :=
 (* rest: Some(Value::Object(map)) contributes its entries in the map's iteration order, anything else nothing;
    here the entry list (empty for None / a non-object).  Keys are written between quotes as they are. *)
 Definition rest_json (rest : list (list N * jtree)) : list token :=
-  flat_map (fun kv => [COMMA; STR (fst kv); COLON; VAL (snd kv)]) rest.
+  flat_map (fun kv => [COMMA; STR (fst kv); COLON] ++ render (snd kv)) rest.
 
 Definition to_json_with (links : list token) (g : graph) (rest : list (list N * jtree)) : list token :=
   [LB; STR (bs "nodes"); COLON; LK] ++ nodes_loop (List.length g) 0 (indexed g) ++ [RK; COMMA] ++
